@@ -11,7 +11,8 @@ from .c02 import auth_macs
 
 PROP = "C20"
 RULE = ("the C01 corpus (seeds of every layer/protocol, hostile structures, every truncation length of the seeds, byte-level "
-        "mutations, TCP histories with accepted and rejected segments) and the reply-eliciting mix, under the console and the "
+        "mutations, frames sourced from the responder's own / broadcast / multicast MAC, established TCP flows with later segments "
+        "carrying arbitrary acknowledgement numbers and control segments) and the reply-eliciting mix, under the console and the "
         "logfmt logger, self-IP list / deny list absent and present; for every frame the stdout lines between two driver markers "
         "are parsed by independent parsers of both formats and must be a word of eth-recv [L3-recv [L4-recv L4-term] L3-term] "
         "eth-term with one recv and one terminal event per layer, inner send only under outer send, Ethernet terminal = send "
@@ -98,6 +99,9 @@ def shard(ctx, budget_s):
                 e = pkt.Endp(gen.rnd_mac(rng), cfg.mac, a, gen.rnd_ip6(rng) if len(a) == 16 else gen.rnd_ip4(rng))
                 seeds.append(e.echo(1, 1, b"denied"))
                 seeds.append(e.udp(1, 2, b"denied"))
+        # unusual Ethernet sources: the responder's own MAC, broadcast, multicast, zero
+        for f in list(seeds[:30]):
+            seeds.append(f[:6] + rng.choice([cfg.mac, pkt.BCAST, b"\0" * 6, b"\x33\x33\0\0\0\x01"]) + f[12:])
         batch = list(seeds)
         for f in seeds:
             if len(f) <= 120 and rng.random() < 0.3:
@@ -111,6 +115,26 @@ def shard(ctx, budget_s):
             for f, r in zip(fs, ctx.send_many(fs)):
                 check_reach(ctx, f, r, cfg)
         ctx.stats["frames_checked"] += len(batch)
+        # established flows: later segments with arbitrary acknowledgement numbers, control segments in between
+        ctx.case(reset=False)
+        for _ in range(12):
+            e = gen.endp(rng, cfg, rng.random() < 0.5)
+            fl = Flow(ctx, e, gen.rnd_port(rng), gen.rnd_port(rng))
+            r = ctx.send(fl.syn_frame())
+            check_reach(ctx, ctx.history[-1], r, cfg)
+            a = pkt.parse(r.reply) if r.kind == "R" else {}
+            if a.get("flags") != 0x12:
+                continue
+            fl.cookie, fl.ack = a["seq"], (a["seq"] + 1) & 0xFFFFFFFF
+            name, u, t = rng.choice(gen.app_requests(rng))
+            for seg in cut(t, sorted(rng.randrange(0, len(t) + 1) for _c in range(rng.choice([0, 1, 2])))) + [b"more", b""]:
+                ack = rng.choice([None, None, rng.getrandbits(32), 0, fl.cookie])
+                r = fl.data(seg, ack=ack)
+                check_reach(ctx, ctx.history[-1], r, cfg)
+                if rng.random() < 0.2:
+                    f2 = fl.data_frame(b"", flags=rng.choice([0x10, 0x11, 0x04, 0x02]))
+                    check_reach(ctx, f2, ctx.send(f2), cfg)
+            ctx.stats["established_flows"] += 1
         n += 1
     if ctx.shard == 0:
         for w in list(ctx.extra.get("event_words", {}))[:4]:
